@@ -209,7 +209,7 @@ class SymmetryAnalyzer(object):
         chiral = True
         for rotation in rotations:
             determinant = np.linalg.det(rotation)
-            if determinant == -1.0:
+            if round(determinant) == -1:
                 return False
 
         return chiral
